@@ -64,6 +64,9 @@ class World:
             ev.append(("enqueue",))
         if n < max_trials or waiting:
             ev.append(("ask",))
+        if n < max_trials:
+            ev.append(("add_done", "x01"))
+            ev.append(("add_done", "y"))
         for t in fr:
             if t.state == TrialState.RUNNING:
                 for key, (name, _) in PARAMS.items():
@@ -77,6 +80,12 @@ class World:
         k = ev[0]
         if k == "enqueue":
             self.study.enqueue_trial({"x": 1})
+        elif k == "add_done":
+            name, dist = PARAMS[ev[1]]
+            val = 0.5 if name == "y" else 0
+            self.study.add_trial(optuna.trial.create_trial(params={name: val}, distributions={name: dist}, value=2.0))
+            while len(self.trials) < len(self.frozen()):
+                self.trials.append(None)
         elif k == "ask":
             tr = self.study.ask()
             while len(self.trials) <= tr.number:
